@@ -529,9 +529,9 @@ def check_inverse(fx, R, f, fwd):
     except sym.Unsupported as u:
         R.undecided('F2', 'ECEFConverter::toWGS84:altitude', 'symbolic reader (epilogue): %s' % u)
         return
-    dexprs = [('longitude', st.locals.get(ids.get('longitude'))) for st in pres] + [('initial latitude', init_lat), ('latitude update', new_lat)] + \
-        [('altitude', st.locals.get(ids.get('altitude'))) for st in posts]
-    nq = check_definedness(R, [(w_, e_) for (w_, e_) in dexprs if isinstance(e_, sp.Basic)], substitute, lat, lon, h, a, e2, loc)
+    dexprs = [('longitude', st.locals.get(ids.get('longitude')), st.cond) for st in pres] + [('initial latitude', init_lat, []), ('latitude update', new_lat, [])] + \
+        [('altitude', st.locals.get(ids.get('altitude')), st.cond) for st in posts]
+    nq = check_definedness(R, [(w_, e_, c_) for (w_, e_, c_) in dexprs if isinstance(e_, sp.Basic)], substitute, lat, lon, h, a, e2, loc)
     if nq == 0:
         R.undecided('F5', 'ECEFConverter::toWGS84:quotients', 'no quotient found in the extracted formulas')
     for st in posts:
@@ -585,8 +585,26 @@ def check_definedness(R, exprs, substitute, lat, lon, h, a, e2, loc):
             return abs(complex(sp.N(v, 60))) < 1e-40
         except (TypeError, ValueError):
             return None
+    def on_path(conds, w):
+        """True / False / None: do the conditions of the path that defines the expression hold at the witness point?"""
+        for c in conds or []:
+            if c[0] in ('True', 'False') or not isinstance(c[1], sp.Basic):
+                continue
+            try:
+                v = substitute(c[1]).subs(w)
+                if v not in (sp.true, sp.false) and hasattr(v, 'lhs'):
+                    v = v.func(sp.N(v.lhs, 40), sp.N(v.rhs, 40))
+            except Exception:
+                return None
+            if v not in (sp.true, sp.false):
+                return None
+            if bool(v) != c[2]:
+                return False
+        return True
     seen, n_q = set(), 0
-    for (what, e) in exprs:
+    for item in exprs:
+        what, e = item[0], item[1]
+        conds = item[2] if len(item) > 2 else []
         for (num, den, ctx) in quotients(e):
             key = (str(num), str(den))
             if key in seen:
@@ -597,6 +615,12 @@ def check_definedness(R, exprs, substitute, lat, lon, h, a, e2, loc):
             bad = inf = None
             unknown = False
             for w in wit:
+                op = on_path(conds, w)
+                if op is False:
+                    continue                     # the branch that forms this quotient is not taken for this point
+                if op is None:
+                    unknown = True
+                    continue
                 dz = is_zero(ds.subs(w))
                 if dz is None:
                     unknown = True
